@@ -161,7 +161,8 @@ func (s *Sequencer) GetNextBatch(ctx context.Context, req coresequencer.GetNextB
 		}
 	}
 OuterLoop:
-	for size < maxBytes {
+	// scan DA only when nothing is carried over: whatever is still queued comes first
+	for size < maxBytes && s.pendingTxs.Len() == 0 {
 		// if we have exceeded maxHeightDrift, stop fetching more transactions
 		if nextDAHeight > lastDAHeight+s.maxHeightDrift {
 			s.logger.Debug("exceeded max height drift, stopping fetching more transactions")
